@@ -164,6 +164,96 @@ def harness(ctx, case):
     return out
 
 
+def harness_main(ctx, case):
+    """the real `main` of the binary: environment capture at start-up, flag handling, build of one file that writes
+    `out env {V = env.NAME}`. clap and the home directory are stubs (listed); std::env::vars yields the harness's variables, whose
+    values are symbolic byte strings of length 0..2."""
+    from mirsym.vals import NONE, some, Opaque
+    prog = ctx.prog
+    ucgrun.install_parse_override(prog)
+    out = {'reached': True, 'asserts': 1, 'violations': []}
+    names = case['names']
+    vals = {}
+    for i, (n, L) in enumerate(zip(names, case['lens'])):
+        bs = []
+        for j in range(L):
+            v = ctx.bv('m%d_%d' % (i, j), 8)
+            ctx.assume(z3.And(z3.UGE(v, 0x21), z3.ULT(v, 0x7f), v != 0x22, v != 0x5c, v != 0x27))
+            bs.append(v)
+        vals[n] = SymStr(bs) if bs else ''
+    ctx.process_env = [(n, vals[n]) for n in names]
+    req = case['req']
+    ctx.fs['/cwd/conf.ucg'] = 'out env {V = env.%s};\n' % req
+    sub = Agg('ArgMatches', None, (MapV('HashMap').insert('INPUT', VecV(['conf.ucg'])), MapV('HashMap')))
+    flags = MapV('HashMap')
+    if not case['strict']:
+        flags = flags.insert('nostrict', True)
+    top = Agg('ArgMatches', None, (MapV('HashMap'), flags))
+    # the stubs read the per-path context (call sites cache their resolved callee, so the stub functions themselves must not close
+    # over per-case values)
+    ctx.cli_top, ctx.cli_sub = top, sub
+    if 'do_flags' not in prog.overrides:
+        prog.overrides['do_flags'] = lambda c, a, callee: Opaque('clap::App')
+        prog.overrides['<App as Clone>::clone'] = lambda c, a, callee: Opaque('clap::App')
+        prog.overrides['App::get_matches'] = lambda c, a, callee: c.cli_top
+        prog.overrides['ArgMatches::subcommand_matches'] = lambda c, a, callee: some(c.cli_sub) if deref_all(a[1]) == 'build' else NONE
+        prog.overrides['home_dir'] = prog.overrides['dirs::home_dir'] = lambda c, a, callee: NONE
+    prog.resolve_cache.clear()
+    exited = 0
+    try:
+        ctx.call('main', [])
+    except interp.HarnessStop as h:
+        exited = h.payload
+
+    def concrete_env(m):
+        return {k: (bytes(m.eval(x, model_completion=True).as_long() for x in v.bytes).decode('latin-1') if type(v) is SymStr else v) for k, v in vals.items()}
+
+    def report(key, what):
+        m = ctx.model()
+        e = concrete_env(m)
+        out['violations'].append({'key': key, 'what': what + ' — `ucg %sbuild conf.ucg` with conf.ucg = `out env {V = env.%s};` and environment %r' % ('' if case['strict'] else '--no-strict ', req, e),
+                                  'case': {'kind': 'cli-env', 'text': 'out env {V = env.%s};\n' % req, 'strict': case['strict'], 'env': e}, 'req': req, 'set': req in vals})
+    writes = [e[2] for e in ctx.events if e[0] == 'write']
+    if req in vals:
+        if exited != 0:
+            report('C18:main:set-variable-fails', 'the build fails although %s is set (to a value of %d bytes)' % (req, case['lens'][names.index(req)]))
+            return out
+        import C14
+        out['asserts'] += 1
+        if not C14.same_text(ctx, writes, ["V='", vals[req], "'\n"]):
+            report('C18:main:value-altered', 'the artifact does not carry the value of %s: %r' % (req, writes))
+            return out
+        out['sample'] = {'req': req, 'lens': case['lens'], 'strict': case['strict'], 'artifact': 'V=<value> byte-identical'}
+        return out
+    if case['strict'] and exited == 0:
+        report('C18:main:unset-builds-in-strict-mode', 'the build succeeds although %s is not set' % req)
+    if not case['strict'] and exited != 0:
+        report('C18:main:unset-fails-in-non-strict-mode', 'the build fails in non-strict mode for the unset variable %s' % req)
+    out['sample'] = {'req': req, 'unset': True, 'strict': case['strict'], 'exit': exited}
+    return out
+
+
+def judge_main(fw, v):
+    import tempfile
+    c = v['case']
+    with tempfile.TemporaryDirectory(prefix='ucg-verif-c18-') as d:
+        open(os.path.join(d, 'conf.ucg'), 'w').write(c['text'])
+        r = fw.native().cli((['--no-strict'] if not c['strict'] else []) + ['build', 'conf.ucg'], d, env=dict(c['env']), clear_env=True)
+        art = open(os.path.join(d, 'conf.env')).read() if os.path.exists(os.path.join(d, 'conf.env')) else None
+    fw.replayed += 1
+    v['native'] = {'rc': r['rc'], 'stderr': r['stderr'][-300:], 'artifact': art}
+    k = v['key']
+    if k.endswith('set-variable-fails'):
+        return r['rc'] != 0
+    if k.endswith('value-altered'):
+        return r['rc'] == 0 and art != "V='%s'\n" % c['env'][v['req']]
+    if k.endswith('unset-builds-in-strict-mode'):
+        return r['rc'] == 0
+    if k.endswith('unset-fails-in-non-strict-mode'):
+        return r['rc'] != 0
+    return False
+
+
 def make_judge(v):
     def judge(out):
         key = v['key']
@@ -195,11 +285,24 @@ def make_judge(v):
 def run(fw):
     cs = cases(fw.tier)
     fw.bounds.update({'variables': '0..3', 'value_bytes': cs[0]['L'], 'byte_domain': 'printable ASCII without quote and backslash, symbolic', 'modes': ['strict', 'non-strict'],
-                      'outside': 'how the OS environment reaches the map (std::env::vars in main), non-UTF-8 values, names outside [A-Za-z0-9_]'})
+                      'outside': 'non-UTF-8 names and values (std::env::vars panics on them: outside the property, which quantifies over Unicode values), names outside [A-Za-z0-9_] in family main'})
     fw.explore('env', harness, cs, fuel=30_000_000)
     for v in fw.violations:
         v['judge'] = make_judge(v)
-    fw.assumptions += ['std/alloc builtins (listed); format! keeps its argument values, so disclosure is decided on the error value itself']
+    # the binary's own start-up: how the process environment reaches the map (value lengths 0..2, incl. set-but-empty variables)
+    mc = []
+    for strict in (True, False):
+        for lens in ([0], [1], [2], [0, 2], [2, 0], [1, 1]):
+            names = NAMES[:len(lens)]
+            for req in names + ['ZZ']:
+                mc.append({'names': names, 'lens': lens, 'req': req, 'strict': strict})
+    fw.bounds['main_family'] = 'real main(): 1..2 variables with values of 0..2 symbolic bytes, strict and --no-strict, one set or unset name read by `out env {V = env.NAME}`'
+    n0 = len(fw.violations)
+    fw.explore('main', harness_main, mc, fuel=100_000_000)
+    for v in fw.violations[n0:]:
+        v['reproduced'] = judge_main(fw, v)
+    fw.assumptions += ['std/alloc builtins (listed); format! keeps its argument values, so disclosure is decided on the error value itself',
+                       'family main: clap (do_flags, get_matches, subcommand_matches) and dirs::home_dir are stubs; std::env::vars yields the harness environment; File::create/write are recording stubs']
     return fw.finish(technique='symbolic execution of rustc MIR with symbolic environment values; value equality by z3, disclosure by taint on the error value; natively replayed')
 
 
